@@ -16,8 +16,12 @@ Record rstruct := mkRs { rs_index : Z; rs_sign : Z; rs_a : Z; rs_k : Z; rs_ld : 
 Definition m_power (a sign : Z) : Z := i64 (i64 (- (i64 a)) * i64 sign).
 
 (* proof.go:209 newWithParams *)
+Definition max_int64 : Z := 9223372036854775807.
+Definition max_uint : Z := 18446744073709551615.
+
 Definition new_with_params (index sign a k n ld : Z) : outcome rstruct :=
   if 4 <? n then Err
+  else if max_int64 <? a then Err
   else if negb ((sign =? 1) || (sign =? -1)) then Err
   else Ok (mkRs index sign a k ld n).
 
@@ -89,13 +93,18 @@ Definition commitments_from_proof (pk : pubkey) (s : rstruct) (p : rproof) (chal
 (* ------------------------------------------------------------------------------ *)
 (* statement logic *)
 
+(* proof.go threeSquaresBound *)
+Definition three_squares_bound (sign bound : Z) : Z :=
+  if sign =? -1 then bound * 4 + 2 else bound * 4 - 2.
+
 (* proof.go:430 ProvesStatement *)
 Definition proves_statement (p : rproof) (sign factor bound : Z) : bool :=
   if negb ((sign =? 1) || (sign =? -1)) then false
   else
     let three := Z.of_nat (length (rp_Cs p)) =? 3 in
+    if three && (max_uint / 4 <? factor) then false else
     let factor' := if three then u64 (factor * 4) else factor in
-    let bound' := if three then bound * 4 - 2 else bound in
+    let bound' := if three then three_squares_bound sign bound else bound in
     match rp_K p with
     | None => false   (* p.K.Cmp on nil would panic; callers only use extracted proofs *)
     | Some k =>
@@ -109,7 +118,7 @@ Definition proven_statement (p : rproof) : option (Z * Z * Z) :=
   | None => None
   | Some k =>
     let three := Z.of_nat (length (rp_Cs p)) =? 3 in
-    let bound := if three then Z.shiftr (k + 2) 2 else k in
+    let bound := if three then (if rp_Sign p =? -1 then Z.shiftr k 2 else Z.shiftr (k + 2) 2) else k in
     let factor := if three then Z.shiftr (rp_A p) 2 else rp_A p in
     Some (rp_Sign p, factor, bound)
   end.
@@ -125,7 +134,7 @@ Definition holdsb (sign factor bound m : Z) : bool := 0 <=? sign * (factor * m -
 Definition new_proof_structure (index sign factor bound nsq ld : Z) : outcome rstruct :=
   if nsq =? 3 then
     if negb (factor =? 1) then Err
-    else new_with_params index sign (u64 (factor * 4)) (bound * 4 - 2) nsq ld
+    else new_with_params index sign (u64 (factor * 4)) (three_squares_bound sign bound) nsq ld
   else new_with_params index sign factor bound nsq ld.
 
 (* the value to be split: proof.go:276 *)
